@@ -4,10 +4,13 @@
     dem[L]    : L is demanded (scheduled by the solver)
     in[F]     : form instance F takes part (is in Solver.forms)
 
-    sel[L,p] => dem[L] and A_p and D_p and OUT_p(var_L)
-    dem[L]   => OR_p sel[L,p]
-    dem[M]  <=> required(M) and in[form(M)]  or  OR_{(L,p) reads M} sel[L,p]
-    in[F]   <=> requested(F) or OR_{(L,p) reads a line of F} sel[L,p]
+    att[L,p,j]: an attempt of L along p reaches its j-th line read
+               = dem[L] and conditions before read j and earlier reads valued
+    sel[L,p] <=> att after the last read and the remaining conditions;
+                 sel[L,p] => OUT_p(var_L)
+    blocked[L] <=> dem[L] and no sel (waits for a line that never gets a value)
+    dem[M]  <=> required(M) and in[form(M)]  or  OR att[L,p,j] over reads j of M
+    in[F]   <=> requested(F) or OR att[L,p,j] over reads of a line of F
     ni[L]   <=> OR_{p not_implemented} sel[L,p]      (same for err)
     solved  <=> no ni, no err
 
@@ -46,13 +49,15 @@ def enc_value(v):
     return ('num', l[0], l[1].__name__)
 
 
-def line_var(cat, fld):
+def line_var(cat, fld, relaxed=False):
     """(kind, terms...) of the stored value of a line, named like the symbols
     SymValues hands to readers."""
     F = cat.hab_fields
     name = 'v:' + fld.name()
     t = type(fld)
     if t is F.FloatField:
+        if relaxed:
+            return ('num', tm.var(name, 'R'), 'float')
         k = tm.var(name + '#k', 'I')
         return ('num', tm.div(tm.to_real(k), tm.R(Fraction(10) ** fld._places)), 'float')
     if t is F.IntegerField:
@@ -115,7 +120,7 @@ def _install_ft_stub(year, mode='uf'):
                     r = ref if r is None else tm.ite(tm.eq(st, tm.I(k)), ref, r)
                 return symx.wrap(r, float)
             r = tm.uf('FT_%d' % _year, (st, xt), 'R')
-            ex.assume(tm.and_(tm.le(tm.R(0), r), tm.le(r, tm.mul(tm.R(Fraction(37, 100)), xt))))
+            ex.assume(tm.and_(tm.le(tm.R(0), r), tm.implies(tm.le(tm.R(0), xt), tm.le(r, tm.mul(tm.R(Fraction(37, 100)), xt)))))
             return symx.wrap(r, float)
         ft.__hv_stub__ = True
         m.figure_tax = ft
@@ -131,13 +136,13 @@ def _summarise_chunk(arg):
         fld = cat.field(name)
         t0 = time.time()
         ps, stats, complete = summary.summarise(cat, fld, int_bound=K, nonneg=opts.get('nonneg', False),
-                                                max_paths=opts.get('max_paths', 60000))
+                                                max_paths=opts.get('max_paths', 60000), copies_total=opts.get('S'), relaxed=opts.get('relaxed', False), cents=opts.get('cents', False))
         terms = []
         paths = []
         for p in ps:
             d = {'kind': p.kind, 'detail': p.detail, 'reads': p.reads, 'unknown': p.unknown,
-                 'nd': len(p.decisions), 'na': len(p.assumes)}
-            terms.extend(p.decisions)
+                 'nc': len(p.conds), 'na': len(p.assumes)}
+            terms.extend(p.conds)
             terms.extend(p.assumes)
             if p.kind == 'value':
                 ev = enc_value(p.value)
@@ -179,18 +184,54 @@ def instance_names(cat, K):
 
 
 class LinePath(object):
-    __slots__ = ('kind', 'detail', 'reads', 'D', 'A', 'value', 'pytype', 'unknown')
+    __slots__ = ('kind', 'detail', 'reads', 'conds', 'assumes', 'value', 'pytype', 'unknown')
+
+
+def _tree_hash():
+    import hashlib
+    h = hashlib.sha256()
+    for base in (os.path.join(instrument.REPO, 'habutax'), os.path.join(common.VERIF, 'hv')):
+        for root, dirs, files in sorted(os.walk(base)):
+            dirs.sort()
+            for fn in sorted(files):
+                if fn.endswith('.py'):
+                    p = os.path.join(root, fn)
+                    h.update(p.encode())
+                    with open(p, 'rb') as f:
+                        h.update(f.read())
+    return h.hexdigest()[:24]
 
 
 def load_summaries(year, K, opts=None, names=None, procs=None):
+    """Summaries are recomputed from /repo's current source; the on-disk cache
+    is keyed by the content hash of habutax/**.py and hv/**.py (pure
+    optimisation, safe to delete)."""
+    import pickle
     opts = opts or {}
     cat = summary.Catalogue(year)
+    cache_file = None
     if names is None:
         names = instance_names(cat, K)
-    # heavy lines first, small chunks for load balance
-    chunks = [names[i::64] for i in range(64)]
-    chunks = [c for c in chunks if c]
-    res = common.pmap(_summarise_chunk, [(year, K, c, opts) for c in chunks], procs)
+        if os.environ.get('HV_NO_CACHE') != '1':
+            key = '%s-%d-%d-%s' % (_tree_hash(), year, K, '_'.join('%s=%s' % kv for kv in sorted(opts.items())))
+            cache_file = os.path.join(common.VERIF, '.cache', key + '.pkl')
+    res = None
+    if cache_file and os.path.exists(cache_file):
+        try:
+            with open(cache_file, 'rb') as f:
+                res = pickle.load(f)
+        except Exception:
+            res = None
+    if res is None:
+        chunks = [names[i::64] for i in range(64)]
+        chunks = [c for c in chunks if c]
+        res = common.pmap(_summarise_chunk, [(year, K, c, opts) for c in chunks], procs)
+        if cache_file:
+            os.makedirs(os.path.dirname(cache_file), exist_ok=True)
+            tmp = cache_file + '.%d.tmp' % os.getpid()
+            with open(tmp, 'wb') as f:
+                pickle.dump(res, f)
+            os.replace(tmp, cache_file)
     summ = {}
     meta = {}
     for part in res:
@@ -201,9 +242,9 @@ def load_summaries(year, K, opts=None, names=None, procs=None):
             for pd in d['paths']:
                 lp = LinePath()
                 lp.kind, lp.detail, lp.reads, lp.unknown = pd['kind'], pd['detail'], pd['reads'], pd['unknown']
-                lp.D = ts[pos:pos + pd['nd']]
-                pos += pd['nd']
-                lp.A = ts[pos:pos + pd['na']]
+                lp.conds = ts[pos:pos + pd['nc']]
+                pos += pd['nc']
+                lp.assumes = ts[pos:pos + pd['na']]
                 pos += pd['na']
                 lp.value = None
                 lp.pytype = pd.get('pytype')
@@ -225,12 +266,15 @@ def load_summaries(year, K, opts=None, names=None, procs=None):
 
 # ------------------------------------------------------------------- model
 class ReturnModel(object):
-    def __init__(self, year, K, requested, opts=None, summaries=None):
+    def __init__(self, year, K, requested, opts=None, summaries=None, sopts=None):
+        self.opts = opts or {}
         self.year = year
         self.K = K
         self.requested = list(requested)
+        self.sopts = dict(sopts or {})
+        self.relaxed = bool(self.sopts.get('relaxed', False))
         if summaries is None:
-            summaries = load_summaries(year, K, opts)
+            summaries = load_summaries(year, K, self.sopts)
         self.cat, summ_all, self.meta = summaries
         self.summ = self._closure(summ_all)
         self.lines = sorted(self.summ)
@@ -239,14 +283,18 @@ class ReturnModel(object):
         self.dem = {n: tm.var('dem:' + n, 'B') for n in self.lines}
         self.ni = {n: tm.var('ni:' + n, 'B') for n in self.lines}
         self.err = {n: tm.var('err:' + n, 'B') for n in self.lines}
+        self.blocked = {n: tm.var('blocked:' + n, 'B') for n in self.lines}
         self.inform = {f: tm.var('in:' + f, 'B') for f in self.forms}
         self.sel = {}
-        self.lvar = {n: line_var(self.cat, self.cat.field(n)) for n in self.lines}
+        self.lvar = {n: line_var(self.cat, self.cat.field(n), self.relaxed) for n in self.lines}
         self.constraints = []
         self.incomplete = []
         self._build()
 
     def _closure(self, summ_all):
+        for f in self.requested:
+            self.cat.form(f)    # raises UnknownForm for a form that does not exist
+
         """Lines that can possibly be demanded from the requested forms (over
         all paths): keeps the model small; undemandable lines are irrelevant."""
         keep = {}
@@ -270,7 +318,7 @@ class ReturnModel(object):
         while work:
             n = work.pop()
             for p in summ_all[n]:
-                for kind, name in p.reads:
+                for kind, name, _idx in p.reads:
                     if kind == 'read_line' and name in summ_all:
                         add_form(name.split('.', 1)[0])
                         if name not in keep:
@@ -280,7 +328,7 @@ class ReturnModel(object):
 
     def _build(self):
         C = self.constraints
-        readers = {n: [] for n in self.lines}       # line -> [sel]
+        readers = {n: [] for n in self.lines}       # line -> [att terms]
         form_readers = {f: [] for f in self.forms}
         required = set()
         for f in self.forms:
@@ -288,9 +336,19 @@ class ReturnModel(object):
                 required.add(fld.name())
         self.required = required
         self.outside_reads = set()
+        self.reader_dbg = {}
+        self.valued = {n: tm.var('valued:' + n, 'B') for n in self.lines}
+        enc = self.opts.get('encoding', 'eq')
+        natt = 0
+        seen_assume = set()
         for n in self.lines:
-            sels = []
-            nis, errs = [], []
+            for p in self.summ[n]:
+                for a_ in p.assumes:
+                    if id(a_) not in seen_assume:
+                        seen_assume.add(id(a_))
+                        C.append(a_)
+        for n in self.lines:
+            sels, vals, nis, errs = [], [], [], []
             if not self.meta[n]['complete']:
                 self.incomplete.append(n)
             for k, p in enumerate(self.summ[n]):
@@ -299,45 +357,139 @@ class ReturnModel(object):
                     continue
                 s = tm.var('sel:%s#%d' % (n, k), 'B')
                 self.sel[(n, k)] = s
+                # walk the path: attempts reach successive reads
+                prefix = [self.dem[n]]
+                done = 0
+                dead = False
+                for kind, name, idx in p.reads:
+                    if kind != 'read_line':
+                        continue
+                    if name not in readers:
+                        if name.split('.', 1)[0] in self.forms or ':' in name:
+                            self.outside_reads.add(name)
+                            dead = True
+                            break
+                        continue
+                    if name == n:
+                        continue
+                    prefix.extend(p.conds[done:idx])
+                    done = idx
+                    att = tm.and_(*prefix)
+                    readers[name].append(att)
+                    self.reader_dbg.setdefault(name, []).append((n, k, att))
+                    if self.form_of[name] != self.form_of[n]:
+                        form_readers[self.form_of[name]].append((att, self.form_of[n]))
+                    prefix.append(self.valued[name])
+                if dead:
+                    C.append(tm.not_(s))
+                    continue
                 sels.append(s)
-                body = [self.dem[n]] + list(p.A) + list(p.D)
+                full = tm.and_(*(prefix + list(p.conds[done:])))
+                if enc == 'eq':
+                    C.append(tm.eq(s, full))
+                else:
+                    C.append(tm.implies(s, full))
                 if p.kind == 'value':
-                    body.append(out_eq(self.lvar[n], p.value))
+                    C.append(tm.implies(s, out_eq(self.lvar[n], p.value)))
+                    vals.append(s)
                 elif p.kind == 'not_implemented':
                     nis.append(s)
                 else:
                     errs.append(s)
-                C.append(tm.implies(s, tm.and_(*body)))
-                for kind, name in p.reads:
-                    if kind != 'read_line':
-                        continue
-                    if name in readers:
-                        readers[name].append(s)
-                        form_readers[self.form_of[name]].append(s)
-                    else:
-                        self.outside_reads.add(name)
-                        # a read of a line outside the instance bound: exclude the path
-                        C.append(tm.not_(s))
-            C.append(tm.implies(self.dem[n], tm.or_(*sels) if sels else tm.FALSE))
+            C.append(tm.eq(self.blocked[n], tm.and_(self.dem[n], *[tm.not_(x) for x in sels])))
+            C.append(tm.eq(self.valued[n], tm.or_(*vals) if vals else tm.FALSE))
             C.append(tm.eq(self.ni[n], tm.or_(*nis) if nis else tm.FALSE))
             C.append(tm.eq(self.err[n], tm.or_(*errs) if errs else tm.FALSE))
+        def uniq(xs):
+            seen, out = set(), []
+            for x in xs:
+                if id(x) not in seen:
+                    seen.add(id(x))
+                    out.append(x)
+            return out
+        exact = self.opts.get('exact_demand', True)
         for n in self.lines:
-            srcs = list(readers[n])
+            srcs = uniq(readers[n])
             if n in required:
                 srcs.append(self.inform[self.form_of[n]])
-            C.append(tm.eq(self.dem[n], tm.or_(*srcs) if srcs else tm.FALSE))
+            d = tm.or_(*srcs) if srcs else tm.FALSE
+            C.append(tm.eq(self.dem[n], d) if exact else tm.implies(d, self.dem[n]))
+        # forms: least fixed point enforced with levels (a form is pulled in by a
+        # line of a form that was in strictly earlier), which rules out
+        # self-supporting cycles  in[G] <- line of F <- line of G <- in[G]
+        self.level = {f: tm.var('lvl:' + f, 'I') for f in self.forms}
+        nf = len(self.forms)
         for f in self.forms:
-            srcs = list(form_readers[f])
+            C.append(tm.and_(tm.le(tm.I(0), self.level[f]), tm.le(self.level[f], tm.I(nf))))
+            seen_, forcing, justified = set(), [], []
+            for att, rf in form_readers[f]:
+                if (id(att), rf) in seen_:
+                    continue
+                seen_.add((id(att), rf))
+                forcing.append(att)
+                justified.append(tm.and_(att, tm.lt(self.level[rf], self.level[f])))
             if f in self.requested:
-                srcs.append(tm.TRUE)
-            C.append(tm.eq(self.inform[f], tm.or_(*srcs) if srcs else tm.FALSE))
-        self.solved = tm.and_(*[tm.and_(tm.not_(self.ni[n]), tm.not_(self.err[n])) for n in self.lines])
+                C.append(self.inform[f])
+                C.append(tm.eq(self.level[f], tm.I(0)))
+            else:
+                C.append(tm.implies(tm.or_(*forcing) if forcing else tm.FALSE, self.inform[f]))
+                if exact:
+                    C.append(tm.implies(self.inform[f], tm.or_(*justified) if justified else tm.FALSE))
+        self.solved = tm.and_(*[tm.and_(tm.not_(self.ni[n]), tm.not_(self.err[n]), tm.not_(self.blocked[n])) for n in self.lines])
+
+    def float_input_term(self, name):
+        inp = self.cat.input(name)
+        if self.sopts.get('cents') and 'pct' not in inp.base_name():
+            return tm.div(tm.to_real(tm.var('i:' + name + '#k', 'I')), tm.R(100))
+        return tm.var('i:' + name, 'R')
+
+    def input_domains(self):
+        """Global domain constraints of every input any line reads (the same
+        bounds hv.summary.input_symbol assumes path-locally): the stated bound."""
+        I = self.cat.hab_inputs
+        S = self.sopts.get('S')
+        nonneg = self.sopts.get('nonneg', False)
+        cs = []
+        counts = []
+        for name in self.input_names():
+            inp = self.cat.input(name)
+            t = type(inp)
+            vn = 'i:' + name
+            if t is I.IntegerInput:
+                v = tm.var(vn, 'I')
+                if inp.base_name() == 'number_dependents':
+                    lo, hi = 0, 5
+                elif inp.base_name().startswith('number_'):
+                    lo, hi = 0, self.K
+                    counts.append(v)
+                else:
+                    lo, hi = (0 if nonneg else -summary.INT_BOUND), summary.INT_BOUND
+                cs.append(tm.and_(tm.le(tm.I(lo), v), tm.le(v, tm.I(hi))))
+            elif t is I.FloatInput:
+                v = self.float_input_term(name)
+                cs.append(tm.and_(tm.le(tm.R(0 if nonneg else -summary.MONEY_BOUND), v), tm.le(v, tm.R(summary.MONEY_BOUND))))
+            elif t is I.EnumInput:
+                v = tm.var(vn, 'I')
+                cs.append(tm.and_(tm.le(tm.I(-1 if inp.allow_empty else 0), v), tm.le(v, tm.I(len(list(inp.enum)) - 1))))
+            elif t in (I.SSNInput, I.RegexInput):
+                cs.append(tm.not_(tm.var(vn + '#empty', 'B')))
+        if S is not None and counts:
+            acc = tm.I(0)
+            for v in counts:
+                acc = tm.add(acc, v)
+            cs.append(tm.le(acc, tm.I(S)))
+        return cs
+
+    def only_abnormal(self, name):
+        """No line other than `name` ends in an exception / unknown form (those
+        abort the real solve, so a witness must not trip one first)."""
+        return tm.and_(*[tm.not_(self.err[n]) for n in self.lines if n != name])
 
     def read_graph_cycles(self):
         g = {n: set() for n in self.lines}
         for n in self.lines:
             for p in self.summ[n]:
-                for kind, name in p.reads:
+                for kind, name, _idx in p.reads:
                     if kind == 'read_line' and name in g:
                         g[n].add(name)
         # Tarjan-free: iterative DFS colouring
@@ -371,6 +523,8 @@ class ReturnModel(object):
         s.set('timeout', timeout_ms)
         for c in self.constraints:
             s.add(tm.to_z3(c))
+        for c in self.input_domains():
+            s.add(tm.to_z3(c))
         return s
 
     # -- witnesses ---------------------------------------------------------
@@ -378,7 +532,7 @@ class ReturnModel(object):
         names = set()
         for n in self.lines:
             for p in self.summ[n]:
-                for kind, name in p.reads:
+                for kind, name, _idx in p.reads:
                     if kind == 'read_input':
                         names.add(name)
         return sorted(names)
@@ -389,9 +543,9 @@ class ReturnModel(object):
         cs = []
         for name in self.input_names():
             inp = self.cat.input(name)
-            if type(inp) is I.FloatInput:
+            if type(inp) is I.FloatInput and not (self.sopts.get('cents') and 'pct' not in inp.base_name()):
                 k = tm.var('grid:' + name, 'I')
-                cs.append(tm.eq(tm.var('i:' + name, 'R'), tm.div(tm.to_real(k), tm.R(10 ** places))))
+                cs.append(tm.eq(tm.var('i:' + name, 'R'), tm.div(tm.to_real(k), tm.R(10 ** (places if 'pct' not in inp.base_name() else 4)))))
         return cs
 
     def extract_inputs(self, model):
@@ -408,7 +562,7 @@ class ReturnModel(object):
             elif t is I.IntegerInput:
                 out[name] = str(tm.model_value(model, tm.var(vn, 'I')))
             elif t is I.FloatInput:
-                fr = tm.model_value(model, tm.var(vn, 'R'))
+                fr = tm.model_value(model, self.float_input_term(name))
                 out[name] = frac_to_text(fr)
             elif t is I.EnumInput:
                 k = tm.model_value(model, tm.var(vn, 'I'))
@@ -439,3 +593,75 @@ def frac_to_text(fr):
             txt = (s[:-p] + '.' + s[-p:]) if p else s
             return ('-' if fr < 0 else '') + txt
     return repr(fr.numerator / fr.denominator)
+
+
+class Lifter(object):
+    """Finds concrete inputs for a whole-return condition (one incremental
+    solver per requested form set).
+
+    Line value variables are declared Real instead of Int-on-the-cent-grid:
+    float inputs are whole cents (Int, stated bound) and every rounding result
+    is an Int grid point, so the value of every *valued* line is on its grid by
+    construction (all other operations preserve the grid, see
+    terms.grid_places); dropping the redundant integrality of ~450 line
+    variables is what makes z3 answer in well under a second."""
+
+    def __init__(self, year, K, S, requested, ft='uf', nonneg=False, timeout_ms=60000, opts=None):
+        self.year, self.K, self.S, self.requested = year, K, S, list(requested)
+        self.so = {'S': S, 'ft': ft, 'cents': True}
+        if nonneg:
+            self.so['nonneg'] = True
+        self.rm = ReturnModel(year, K, requested, sopts=self.so, opts=opts)
+        rm = self.rm
+        names = {}
+        for c in rm.constraints:
+            tm.free_vars(c, names)
+        self.rmap = {n: tm.var(n + '~r', 'R') for n, srt in names.items() if srt == 'I' and n.startswith('v:') and n.endswith('#k')}
+        self.s = z3.Solver()
+        self.s.set('timeout', timeout_ms)
+        for c in rm.constraints + rm.input_domains():
+            self.s.add(self.z(c))
+        self.stats = {'queries': 0, 'sat': 0, 'unsat': 0, 'unknown': 0, 'secs': 0.0}
+        self.timeout_ms = timeout_ms
+        self.retries = 2
+
+    def rx(self, t):
+        return tm.subst(t, self.rmap) if self.rmap else t
+
+    def z(self, t):
+        return tm.to_z3(self.rx(t))
+
+    def mv(self, model, t):
+        return tm.model_value(model, self.rx(t))
+
+    def query(self, extra, want_inputs=True):
+        """extra: list of terms over the model's variables.
+        Returns (result, inputs|None, model)."""
+        t0 = time.time()
+        self.stats['queries'] += 1
+        s = self.s
+        s.push()
+        try:
+            for c in extra:
+                s.add(self.z(c))
+            r = str(s.check())
+            m = s.model() if r == 'sat' else None
+            seed = 0
+            while r == 'unknown' and seed < self.retries:
+                # z3's incremental state sometimes wanders: retry on a fresh solver / other seed
+                seed += 1
+                s2 = z3.Solver()
+                s2.set('timeout', self.timeout_ms)
+                s2.set('random_seed', seed * 7919)
+                for c in self.rm.constraints + self.rm.input_domains() + list(extra):
+                    s2.add(self.z(c))
+                r = str(s2.check())
+                m = s2.model() if r == 'sat' else None
+                self.stats['retries'] = self.stats.get('retries', 0) + 1
+            self.stats[r] += 1
+            if r != 'sat':
+                return r, None, None
+            return 'sat', (self.rm.extract_inputs(m) if want_inputs else None), m
+        finally:
+            s.pop()
+            self.stats['secs'] += time.time() - t0
